@@ -119,6 +119,9 @@ func (c *compressionPool) Compress(dst *bytes.Buffer, src *bytes.Buffer) *Error 
 }
 
 func (c *compressionPool) getDecompressor(reader io.Reader) (Decompressor, error) {
+	if pooled, ok := verifPoolGet(c, 0).(Decompressor); ok {
+		return pooled, pooled.Reset(reader)
+	}
 	decompressor, ok := c.decompressors.Get().(Decompressor)
 	if !ok {
 		return nil, errors.New("expected Decompressor, got incorrect type from pool")
@@ -137,11 +140,18 @@ func (c *compressionPool) putDecompressor(decompressor Decompressor) error {
 	// also reset the decompressor when it's pulled out of the pool, we can
 	// ignore errors here.
 	_ = decompressor.Reset(strings.NewReader(""))
+	if verifPoolPut(c, 0, decompressor) {
+		return nil
+	}
 	c.decompressors.Put(decompressor)
 	return nil
 }
 
 func (c *compressionPool) getCompressor(writer io.Writer) (Compressor, error) {
+	if pooled, ok := verifPoolGet(c, 1).(Compressor); ok {
+		pooled.Reset(writer)
+		return pooled, nil
+	}
 	compressor, ok := c.compressors.Get().(Compressor)
 	if !ok {
 		return nil, errors.New("expected Compressor, got incorrect type from pool")
@@ -155,6 +165,9 @@ func (c *compressionPool) putCompressor(compressor Compressor) error {
 		return err
 	}
 	compressor.Reset(io.Discard) // don't keep references
+	if verifPoolPut(c, 1, compressor) {
+		return nil
+	}
 	c.compressors.Put(compressor)
 	return nil
 }
